@@ -14,5 +14,9 @@ pub use self::proof::R1CSProof;
 pub use self::prover::Prover;
 pub use self::verifier::batch_verify;
 pub use self::verifier::Verifier;
+#[cfg(feature = "verif-hooks")]
+pub use self::prover::RandomizingProver;
+#[cfg(feature = "verif-hooks")]
+pub use self::verifier::RandomizingVerifier;
 
 pub use crate::errors::R1CSError;
